@@ -433,6 +433,7 @@ Definition close_listener (k : kern) (fd : N) (s : sock) (ready : list N) : kern
         negb (fst fs =? fd) && negb (existsb (N.eqb (fst fs)) ready) &&
         match s_tcb (snd fs), s_bound (snd fs) with
         | Some t, Some b => tstate_eqb (t_state t) SynReceived && (b_port b =? snd local) &&
+                            same_family (b_addr b) (fst local) &&
                             (wildcard || ip_eqb (b_addr b) (fst local))
         | _, _ => false
         end) (k_socks k)) in
